@@ -259,7 +259,17 @@ def scenario(ck, trial, tier, cs0, max_attempts=None):
         # limit + 1 times by the node itself, announcements of it notwithstanding
         limit = max_attempts if max_attempts is not None else NP.MAX_CONNECTION_ATTEMPTS
         for key, lst in by.items():
-            own = [x for x in lst if not x[2]]
+            # attempts issued by the harness itself (a directly started connection) install a fresh entry: count the node's
+            # own dials between two of those
+            runs, cur = [], 0
+            for x in lst:
+                if x[2]:
+                    runs.append(cur)
+                    cur = 0
+                else:
+                    cur += 1
+            runs.append(cur)
+            own = [0] * max(runs)
             if key[0] in (3, 4, 5) and len(own) > limit + 1:
                 ck.violation('attempt-after-give-up', 'address %s, whose every connection ended without a greeting, was dialled %d '
                              'times by the node (give-up limit %d)' % (key, len(own), limit), {'trial': trial, 'attempts': lst[:12]})
@@ -282,9 +292,6 @@ def atomic_probe(ck, tier):
     import check_C15 as W15
     from skepticoin.networking import disk_interface as DI
     from skepticoin.networking import remote_peer as RP
-    if not W15._AUDIT['installed']:
-        sys.addaudithook(W15._audit_hook)
-        W15._AUDIT['installed'] = True
     name = DI.PEERS_JSON_FILE
     if os.path.exists(name):
         os.unlink(name)
@@ -293,21 +300,26 @@ def atomic_probe(ck, tier):
         peer = RP.DisconnectedRemotePeer('10.3.%d.%d' % (k // 200, k % 200 + 1), 2412, 'OUTGOING', None, 0)
         old_disk = open(name, 'rb').read() if os.path.exists(name) else None
         tr = W15.Tracer(name)
-        saved = (DI.__dict__.get('open'), DI.os)
-        DI.open = tr.open
-        DI.os = W15.OsProxy(tr)
-        W15._AUDIT['events'] = []
-        W15._AUDIT['on'] = True
+        _restore_fs = W15.install_fs_tracer(DI, tr)
+        W15.audit_begin(name)
         try:
             di.write_peers(peer)
         finally:
-            W15._AUDIT['on'] = False
-            if saved[0] is None:
-                del DI.open
-            else:
-                DI.open = saved[0]
-            DI.os = saved[1]
+            a_events, a_states, a_sources = W15.audit_end()
+            _restore_fs()
         new_disk = open(name, 'rb').read()
+        tr.boundary(('end',))
+        for ev_, content in a_states:
+            if content != old_disk and content != new_disk and old_disk is not None:
+                ck.violation('peers-file-torn', 'at a file-system call (%s) during write_peers the peers file is neither the complete '
+                             'previous nor the complete new list' % ev_, {'kind': 'peers-file', 'write': k})
+                break
+        for src_content in a_sources:
+            if src_content != new_disk:
+                ck.violation('peers-file-torn', 'at the switch-over of write_peers the side file holds %s bytes on disk, the complete '
+                             'new list has %d' % (None if src_content is None else len(src_content), len(new_disk)),
+                             {'kind': 'peers-file', 'write': k})
+                break
         rp = {'kind': 'peers-file', 'write': k, 'ops': [repr(s_[0]) for s_ in tr.states]}
         for i, (op, content) in enumerate(tr.states):
             ck.case(('peers-file', k, i), kind='peers-file-crash-point/%s' % op[0])
@@ -315,7 +327,7 @@ def atomic_probe(ck, tier):
                 ck.violation('peers-file-torn', 'after step %d (%s) of write_peers the peers file is neither the complete previous '
                              'nor the complete new list (%s bytes)' % (i, op[0], None if content is None else len(content)), rp)
                 break
-        inplace = W15.in_place_writes(W15._AUDIT['events'], name) if old_disk is not None else []
+        inplace = W15.in_place_writes(a_events, name) if old_disk is not None else []
         if inplace:
             ck.violation('peers-file-written-in-place', 'write_peers opens the peers file itself for writing (%s)' % ', '.join(inplace[:3]), rp)
         try:
